@@ -284,4 +284,5 @@ func init() {
 		zoo.ProviderKind{Name: "altPA", New: altzoo.NewPA},
 		zoo.ProviderKind{Name: "altPB", HasQual: true, New: altzoo.NewPB},
 	)
+	zoo.ProviderKinds = append(zoo.ProviderKinds, zoo.ExtraProviderKinds...) // 19 PLP, 20 PZQ, 21 PZR
 }
